@@ -4377,8 +4377,15 @@ impl Handler {
         // Per-KG authorization: check if user has access to the target KG.
         if let Some(identity) = effective_auth {
             if identity.role != crate::auth::Role::Admin {
-                // `.kg use` / `.kg create` switch the graph the following statements act on
-                let mut stmt_kg: Option<String> = current_kg.map(str::to_string);
+                // A request that names no graph (and has no session binding) acts on the
+                // server's current graph; that is the graph to authorize against.
+                // `.kg use` / `.kg create` switch the graph the following statements act on.
+                let mut stmt_kg: Option<String> = current_kg.map(str::to_string).or_else(|| {
+                    self.storage
+                        .read()
+                        .current_knowledge_graph()
+                        .map(str::to_string)
+                });
                 // a graph created earlier in this program belongs to its creator
                 let mut created_here: Vec<String> = Vec::new();
                 for stmt in &statements {
